@@ -77,16 +77,17 @@ def hx(b):
 
 class Val:
     """value of one object: address translation + the lines its contents depend on"""
-    __slots__ = ("trans", "hist", "known", "info")
+    __slots__ = ("trans", "hist", "known", "info", "comp")
 
-    def __init__(self, trans=(), hist=None, known=True, info=None):
+    def __init__(self, trans=(), hist=None, known=True, info=None, comp=False):
+        self.comp = comp        # constructed with a compression interface (travels with the value, survives create/load)
         self.trans = trans      # tuple of tokens of the last `trans`
         self.hist = hist        # None: empty object; else tuple of protocol lines with the name replaced by @
         self.known = known      # False after a load that was not recognised: no claim until re-initialised
         self.info = info or {}  # absolutely known header fields
 
     def copy(self):
-        return Val(self.trans, self.hist, self.known, dict(self.info))
+        return Val(self.trans, self.hist, self.known, dict(self.info), self.comp)
 
 
 def is_elf(img):
@@ -118,7 +119,9 @@ class World:
         t = line.split()
         op = t[0]
         W = self.v
-        fresh = lambda: Val((), ("new @",), True, {"class": 1, "enc": 1, "nsec": 2, "type": 0, "machine": 0, "entry": 0})
+        fresh = lambda comp=False: Val((), ((("comp",),) if comp else ()) + ("new @",), True,
+                                       {"class": 1, "enc": 1, "nsec": 2, "type": 0, "machine": 0, "entry": 0}, comp)
+        cm = lambda x: ((("comp",),) if x.comp else ())     # marker: the twin is constructed with the interface too
         if op == "reuse":
             return ("other", None, None, "ok")
         if op == "vnew":
@@ -127,7 +130,7 @@ class World:
         n = t[1]
         if op == "new":
             if n in W: return ("illformed", n, None, None)
-            W[n] = fresh()
+            W[n] = fresh("comp=1" in t)
             return ("other", n, None, "ok")
         if op == "mc":
             if n in W or t[2] not in W: return ("illformed", n, None, None)
@@ -139,8 +142,8 @@ class World:
         if op == "create":
             cls = 1 if "cls=32" in t else 2
             enc = 2 if "enc=msb" in t else 1
-            W[n] = Val(x.trans, (("trans",) + x.trans, "create @ " + " ".join(t[2:])), True,
-                       {"class": cls, "enc": enc, "nsec": 2, "type": 0, "machine": 0, "entry": 0})
+            W[n] = Val(x.trans, cm(x) + (("trans",) + x.trans, "create @ " + " ".join(t[2:])), True,
+                       {"class": cls, "enc": enc, "nsec": 2, "type": 0, "machine": 0, "entry": 0}, x.comp)
             return ("other", n, None, "ok")
         if op == "trans":
             x.trans = tuple(t[2:])
@@ -157,7 +160,7 @@ class World:
                 if d is not None:
                     info.update(nsec=d["ehdr"]["e_shnum"], type=d["ehdr"]["e_type"], machine=d["ehdr"]["e_machine"],
                                 entry=d["ehdr"]["e_entry"])
-                W[n] = Val(x.trans, (("trans",) + x.trans, "load @ " + " ".join(t[2:])), True, info)
+                W[n] = Val(x.trans, cm(x) + (("trans",) + x.trans, "load @ " + " ".join(t[2:])), True, info, x.comp)
                 return ("load", n, key, None)
             # not recognised: sections dropped, old header kept - no claim about what it looks like
             if x.hist is not None:
@@ -232,7 +235,7 @@ def with_twins(lines):
         if kind in ("obs", "save") and key is not None and key not in seen:
             seen.add(key)
             tn = f"o{k}"; k += 1
-            twins.append(f"new {tn}")
+            twins.append(f"new {tn}" + (" comp=1" if ("comp",) in key[0] else ""))
             twins += twin_lines(key[0], tn, ("obs @" if kind == "obs" else "save @"))
     return lines + twins
 
@@ -305,7 +308,7 @@ def rand_edit(rng, st):
         nm = rng.choice([b".text", b".data", b".mine", b"x"])
         d = bytes(rng.randrange(256) for _ in range(rng.choice([0, 1, 4, 13])))
         st["prog"].append(st["nsec"]); st["nsec"] += 1
-        return f"addsec name={hx(nm)} type=1 flags={rng.choice([0, 2, 6])} align={rng.choice([0, 1, 4, 16])} data={hx(d)}"
+        return f"addsec name={hx(nm)} type=1 flags={rng.choice([0, 2, 6, 0x800, 0x802, 0x08000000])} align={rng.choice([0, 1, 4, 16])} data={hx(d)}"
     if k < 0.8 and st["nsec"] > 1:
         i = rng.randrange(1, st["nsec"])
         f = rng.choice(["flags", "info", "link", "align", "entsize"])
@@ -356,7 +359,7 @@ def gen_history(rng, length):
         return f"o{nxt - 1}"
     def fresh_obj():
         n = newname()
-        lines.append(f"new {n}" + (" comp=1" if rng.random() < 0.15 else ""))
+        lines.append(f"new {n}" + (" comp=1" if rng.random() < 0.3 else ""))
         live.append(n); st_of[n] = {"kind": "create", "nsec": 2, "prog": []}
         if rng.random() < 0.85:
             lines.extend(init_ops(rng, n, st_of, pad_of))
@@ -460,6 +463,18 @@ def gen_cases(rng, tier):
         yield {"id": f"f{k}", "lines": with_twins(lines), "meta": {"directed": True}}; k += 1
         lines = ["new o0 comp=1", "obs o0", "save o0", f"create o0 cls={cls} enc={enc}", "obs o0"]
         yield {"id": f"f{k}", "lines": with_twins(lines), "meta": {"directed": True}}; k += 1
+        # the compression interface travels with the value: sections flagged SHF_COMPRESSED / SHF_RPX_DEFLATE of a
+        # moved object are still written through it (the harness counts the calls), whatever becomes of the source
+        for flags in (0x800, 0x08000000):
+            for mv in ("mc o1 o0", "new o1|ma o1 o0", "new o1 comp=1|ma o1 o0", "vpush o0"):
+                d = "v0" if mv.startswith("vpush") else "o1"
+                for fate_ in ([], ["del o0", "reuse"], [f"create o0 cls={cls} enc={enc}", "save o0"]):
+                    if fate_ and fate_[0] == "del o0" and mv.startswith("vpush"): fate_ = ["reuse"]
+                    lines = ["new o0 comp=1", f"create o0 cls={cls} enc={enc}",
+                             f"ed o0 addsec name={hx(b'.zdata')} type=1 flags={flags} align=4 data=0102030405060708",
+                             f"ed o0 addsec name={hx(b'.plain')} type=1 flags=2 align=1 data=aabb"] + mv.split("|") + fate_ + \
+                            [f"save {d}", f"obs {d}", f"ed {d} addsec name={hx(b'.z2')} type=1 flags={flags} data=0909", f"save {d}"]
+                    yield {"id": f"f{k}", "lines": with_twins(lines), "meta": {"directed": True}}; k += 1
         lines = ["new o0", f"load o0 {hx(img)} lazy=1", "loadmissing o0 lazy=1", "obs o0", f"load o0 {hx(img)} lazy=1", "obs o0"]
         yield {"id": f"f{k}", "lines": with_twins(lines), "meta": {"directed": True}}; k += 1
     if tier == "thorough":
@@ -504,7 +519,7 @@ def oracle(case, out):
         kind, n, key, expect = w.step(ln)
         if kind == "illformed":
             continue
-        if expect is not None and o != expect:
+        if expect is not None and o.split(" ~~ ")[0] != expect:
             sig = "moved-from-not-empty" if expect == EMPTY_OBS else "output:" + op
             v.append({"signature": sig, "what": f"line {i} `{ln[:60]}`: got `{o[:100]}`, value semantics says `{expect[:60]}`"})
             return v
